@@ -237,7 +237,7 @@ def v2_property(pid, tier, cfgs, cont, nontrivial, rule, level="model_checking",
                 log("[%s] simple %s: recorded, %.1fs" % (pid, c2["name"], rec["wall"]))
                 files.append(rec["obs"])
                 if True:
-                    conf = v.attempt("trace validation " + c2["name"], conformance_simple, v, sc, c2, rec, 60 if tier == "quick" else 1500)
+                    conf = v.attempt("trace validation " + c2["name"], conformance_simple, v, sc, c2, rec, 60 if tier == "quick" else 300)
                     if conf:
                         log("[%s] %s: trace validation against SimpleV%d: %s" % (pid, c2["name"], c2["ver"], conf))
                         v.cov.setdefault("conformance", {})[c2["name"]] = conf
@@ -858,7 +858,7 @@ def v1_property(pid, tier, kinds, nontrivial, rule, level="model_checking", mode
                 rec = record_simple(binary, sc, cfg, 150 if tier == "quick" else 3000)
                 log("[%s] %s: recorded, %.1fs" % (pid, cfg["name"], rec["wall"]))
                 files.append(rec["obs"])
-                conf = conformance_simple(v, sc, cfg, rec, limit=60 if tier == "quick" else 1500)
+                conf = conformance_simple(v, sc, cfg, rec, limit=60 if tier == "quick" else 300)
                 log("[%s] %s: trace validation against SimpleV1: %s" % (pid, cfg["name"], conf))
                 v.cov.setdefault("conformance", {})[cfg["name"]] = conf
         if extra:
